@@ -22,21 +22,23 @@ Outer(ch, i) == IF i > Len(ch) THEN "" ELSE "\n" \o Loc(ch[i]) \o Outer(ch, i + 
 Render(e) == IF Len(e.pos_chain) = 0 THEN ""
              ELSE Loc(e.pos_chain[1]) \o " " \o e.error \o Outer(e.pos_chain, 2)
 
-Init == /\ \E f \in Files, p \in Poss : orig = NewErr(f, p, "boom")
+\* messages are arbitrary text: they may contain what looks like formatting directives (a modulo operator, a percentage)
+Msgs == {"boom", "bad operand for %: 100% of %d %s %v"}
+Init == /\ \E f \in Files, p \in Poss, msg \in Msgs : orig = NewErr(f, p, msg)
         /\ copy = orig /\ hasCopy = FALSE
-        /\ ops = <<[op |-> "new", file |-> orig.pos_chain[1].file,
+        /\ ops = <<[op |-> "new", file |-> orig.pos_chain[1].file, msg |-> orig.error,
                     p |-> <<orig.pos_chain[1].pos, orig.pos_chain[1].ln, orig.pos_chain[1].col>>]>>
 
 AppendOrig(f, p) == /\ orig' = ChainAppend(orig, f, p)
-                    /\ ops' = Append(ops, [op |-> "appendOrig", file |-> f, p |-> p])
+                    /\ ops' = Append(ops, [op |-> "appendOrig", file |-> f, msg |-> "", p |-> p])
                     /\ UNCHANGED <<copy, hasCopy>>
 MakeCopy == /\ ~hasCopy
             /\ copy' = orig /\ hasCopy' = TRUE
-            /\ ops' = Append(ops, [op |-> "copy", file |-> "", p |-> <<0, 0, 0>>])
+            /\ ops' = Append(ops, [op |-> "copy", file |-> "", msg |-> "", p |-> <<0, 0, 0>>])
             /\ UNCHANGED orig
 AppendCopy(f, p) == /\ hasCopy
                     /\ copy' = ChainAppend(copy, f, p)
-                    /\ ops' = Append(ops, [op |-> "appendCopy", file |-> f, p |-> p])
+                    /\ ops' = Append(ops, [op |-> "appendCopy", file |-> f, msg |-> "", p |-> p])
                     /\ UNCHANGED <<orig, hasCopy>>
 
 Next == /\ Len(ops) < MaxOps
